@@ -48,7 +48,7 @@ def cls(x):
 def classify(run, case, impl, model):
     if run == l0_common.RUN_NAME:
         return l0_common.classify(run, case, impl, model)
-    if case.startswith("conc") or case.startswith("exhaust"):
+    if case.startswith(("conc", "exhaust", "reuse")):
         return "%s/impl=%s" % (case.split()[0], impl.split()[0])
     op, a, b = first_diff(case, impl, model)
     if op is None:
